@@ -25,13 +25,27 @@ import (
 // contract model (a template without actions renders as its own text), the real library natively.
 
 type zRec struct {
-	method  string
-	typeOK  bool
-	payload string
-	md      map[string][]string
+	method   string
+	typeOK   bool
+	payload  string
+	md       map[string][]string
+	deadline int64 // ns after the clock reading taken right before the shot; -1 = none
 }
 
-var z struct{ recs []zRec }
+var z struct {
+	recs []zRec
+	t0   time.Time
+}
+
+func zCtx(ctx context.Context, r *zRec) {
+	if md, ok := metadata.FromOutgoingContext(ctx); ok {
+		r.md = md
+	}
+	r.deadline = -1
+	if d, ok := ctx.Deadline(); ok {
+		r.deadline = int64(d.Sub(z.t0))
+	}
+}
 
 func vStub___github_com_jhump_protoreflect_desc_MethodDescriptor__GetInputType(md *desc.MethodDescriptor) *desc.MessageDescriptor {
 	return vGetField(md, "inType").(*desc.MessageDescriptor)
@@ -73,9 +87,7 @@ func vStub__github_com_jhump_protoreflect_dynamic_grpcdynamic_Stub__InvokeRpc(s 
 	if vals := vGetField(msg, "values").(map[int32]interface{}); vals != nil {
 		r.payload, _ = vals[1].(string)
 	}
-	if md, ok := metadata.FromOutgoingContext(ctx); ok {
-		r.md = md
-	}
+	zCtx(ctx, &r)
 	z.recs = append(z.recs, r)
 	return &dynamic.Message{}, nil
 }
@@ -96,9 +108,7 @@ func (zChan) Invoke(ctx context.Context, method string, args, reply any, opts ..
 		}
 		r.typeOK = m.GetMessageDescriptor().GetFullyQualifiedName() == want
 	}
-	if md, ok := metadata.FromOutgoingContext(ctx); ok {
-		r.md = md
-	}
+	zCtx(ctx, &r)
 	z.recs = append(z.recs, r)
 	reply.(*dynamic.Message).SetFieldByName("f", "r")
 	return nil
@@ -154,6 +164,7 @@ func zMdEqual(got map[string][]string, want map[string]string) bool {
 // HarnessC20ScenarioCalls: two scenarios (names and step names chosen so that naive joins of the
 // names may coincide) of 1-2 calls each, shot by one gun in the order s0, s1, s0.
 func HarnessC20ScenarioCalls() {
+	vFreezeClock() // (deadlines under a moving clock are the subject of HarnessC20GunEntries)
 	z.recs = nil
 	names := vConcretize(vNondetInt("names", 0, 2))
 	scenNames := [][2]string{{"a_b", "a"}, {"s", "t"}, {"s", "t"}}[names]
@@ -209,7 +220,16 @@ func HarnessC20ScenarioCalls() {
 		steps = append(steps, ss)
 	}
 	ag := &zAggr{}
-	g := NewGun(GunConfig{Target: "t:1"})
+	// (the timeout setting is varied for one naming only: it does not interact with the template cache)
+	confTimeout := time.Duration(0)
+	if names == 2 {
+		confTimeout = time.Duration(vConcretize(vNondetInt("timeoutSec", 0, 1))) * 2 * time.Second
+	}
+	wantTimeout := 15 * time.Second // documented default
+	if confTimeout != 0 {
+		wantTimeout = confTimeout
+	}
+	g := NewGun(GunConfig{Target: "t:1", Timeout: confTimeout})
 	inner := g.gun
 	inner.Aggr, inner.GunDeps, inner.AnswLog = ag, core.GunDeps{Ctx: context.Background(), Log: zap.NewNop()}, zap.NewNop()
 	var mdA, mdB desc.MethodDescriptor
@@ -227,7 +247,9 @@ func HarnessC20ScenarioCalls() {
 	for _, si := range []int{0, 1, 0} {
 		before := len(z.recs)
 		samplesBefore := len(ag.samples)
+		z.t0 = time.Now()
 		g.Shoot(scens[si].Clone().(*Scenario))
+		spent := time.Since(z.t0)
 		// the calls that must have gone out: every step up to the first one that cannot be sent
 		want := 0
 		for _, st := range steps[si] {
@@ -258,6 +280,7 @@ func HarnessC20ScenarioCalls() {
 			vCheck("W2.scenario.message.of.the.methods.input.type", r.typeOK)
 			vCheck("W2.scenario.message.is.the.calls.payload", r.payload == `{"f":"`+st.val+`"}`)
 			vCheck("W3.scenario.metadata.as.written", zMdEqual(r.md, st.md))
+			vCheck("W5.scenario.deadline.is.the.timeout", r.deadline >= int64(wantTimeout) && r.deadline <= int64(wantTimeout)+int64(spent))
 			vCheck("W4.scenario.sent.step.sample.ok", ag.samples[samplesBefore+i].ProtoCode() == 200)
 		}
 		if want < len(steps[si]) {
